@@ -1,7 +1,7 @@
 """
 Correspondence probes for the bookkeeping models (Lean: PGModel/Cache.lean, Share.lean, Serialize.lean, Inference.lean, Validate.lean, Api.lean, Memo.lean, Marginals.lean):
 random operation histories / requests are replayed on the REAL objects and on the model through the driver commands
-`cache`, `share`, `serial`, `infer`, `validate`, `api`, `memo`, `demoobj` (PGModel/DemoObj.lean); answers are diffed. Used by props/c05.py, c17.py, c19.py, c20.py (ctx.corr_break on mismatch).
+`cache`, `share`, `serial`, `infer`, `validate`, `api`, `memo`, `demoobj` (PGModel/DemoObj.lean), `epochkey` (PGModel/EpochKey.lean); answers are diffed. Used by props/c05.py, c17.py, c19.py, c20.py (ctx.corr_break on mismatch).
 """
 import os, random, math
 from fractions import Fraction
@@ -1705,6 +1705,177 @@ def demoobj_history(ctx, rng, n_ops, variant='current'):
     return line
 
 
+# ------------------------------------------------------------------------------------------ epoch keys (C17 / C04)
+def _ek_tokens(sizes_items, mig_items, ids):
+    """`s:<pop>=<rat>,… m:<src>><dst>=<rat>,…`: the items of the two dicts IN DICT ORDER, names -> ids"""
+    s = ','.join(f"{ids[p]}={C.rs(v)}" for p, v in sizes_items) or '-'
+    m = ','.join(f"{ids[a]}>{ids[b]}={C.rs(v)}" for (a, b), v in mig_items) or '-'
+    return f"s:{s} m:{m}"
+
+
+def _ek_shuffled(rng, d):
+    items = list(d.items())
+    rng.shuffle(items)
+    return dict(items)
+
+
+def _ek_spec(rng, names):
+    """change dictionaries over `names` from small grids: contents repeat between (also non-consecutive) epochs"""
+    times = [0, 0.25, 0.5, 1.0, 2.0, 3.0]
+    sizes, mig = {}, {}
+    for p in names:
+        if rng.random() < 0.85:
+            ts = sorted(rng.sample(times, rng.randint(1, 4)))
+            if rng.random() < 0.7:
+                ts[0] = 0
+            sizes[p] = {t: rng.choice([0.5, 1, 1.0, 2.0, 3]) for t in ts}
+    pairs = [(p, q) for p in names for q in names if p != q]
+    for pq in rng.sample(pairs, rng.randint(0, len(pairs))):
+        ts = sorted(rng.sample(times, rng.randint(1, 3)))
+        mig[pq] = {t: rng.choice([0, 0.0, 0.5, 1.0, 0.25]) for t in ts}
+    if not sizes and not mig:
+        sizes[names[0]] = {0: 2.0}
+    return sizes, mig
+
+
+def _ek_demography(pg, rng, names, spec, shuffle):
+    """a REAL Demography for the change dictionaries `spec`; `shuffle` writes the same content in other dict orders and
+    splits it over event objects in another way"""
+    sizes, mig = spec
+    if shuffle:
+        sizes = {p: _ek_shuffled(rng, ch) for p, ch in _ek_shuffled(rng, sizes).items()}
+        mig = {k: _ek_shuffled(rng, ch) for k, ch in _ek_shuffled(rng, mig).items()}
+    how = rng.choice(['kw', 'events', 'mixed'])
+    with C.LogCapture():
+        if how == 'kw' or (not sizes or not mig):
+            return pg.Demography(pop_sizes=sizes or None, migration_rates=mig or None)
+        evs = [pg.MigrationRateChanges(mig), pg.PopSizeChanges(sizes)]
+        if how == 'mixed':
+            return pg.Demography(events=[evs[0]], pop_sizes=sizes)
+        if rng.random() < 0.5:
+            evs.reverse()
+        return pg.Demography(events=evs)
+
+
+def epochkey_pairs(ctx, rng, variant='current', n_pairs=30):
+    """`Epoch.__eq__` / `Epoch.__hash__` of REAL epoch objects against the Lean model of the key (PGModel/EpochKey.lean, driver
+    `epochkey`): epochs of real `pg.Demography` objects (consecutive and non-consecutive of one generator run; of two demographies,
+    one of them possibly the same content written in other dict orders) and directly constructed `Epoch` objects (content of a
+    generated epoch in shuffled order, with / without the self pairs, with missing pairs left to the constructor's zero fill).
+    For every pair `e1 == e2` and `hash(e1) == hash(e2)` of the real objects are compared with the model's answer on
+    `list(e.pop_sizes.items())`, `list(e.migration_rates.items())` (for the directly constructed ones: on the constructor ARGUMENTS,
+    the model applies the zero fill).  Independently of the model: two epochs that compare equal must have the same population
+    sizes and the same migration rates between distinct populations (`epoch-eq:unsound`), and every generated epoch must list
+    its keys in the order `pop_names` / `product(pop_names, repeat=2)` (theorem `generated_key_order`)."""
+    pg = C.import_phasegen()
+    import itertools
+    from phasegen.demography import Epoch
+    pool = ['a', 'b', 'pop_0', 'zeta', 'B']
+    names = rng.sample(pool, rng.randint(2, 3))
+    spec = _ek_spec(rng, names)
+    d1 = _ek_demography(pg, rng, names, spec, shuffle=False)
+    mode2 = rng.choice(['same-shuffled', 'same-shuffled', 'other', 'other-names', 'events'])
+    if mode2 == 'same-shuffled':
+        d2 = _ek_demography(pg, rng, names, spec, shuffle=True)
+    elif mode2 == 'other':
+        d2 = _ek_demography(pg, rng, names, _ek_spec(rng, names), shuffle=rng.random() < 0.5)
+    elif mode2 == 'other-names':
+        names2 = rng.sample(pool, rng.randint(2, 3))
+        d2 = _ek_demography(pg, rng, names2, _ek_spec(rng, names2), shuffle=False)
+    else:
+        with C.LogCapture():
+            d2 = pg.Demography(events=[_demoobj_event(pg, rng, names) for _ in range(rng.randint(1, 4))])
+    ctx.count(f'epochkey:second-demography:{mode2}')
+    with C.LogCapture():
+        gen = [list(itertools.islice(d.epochs, 7)) for d in (d1, d2)]
+    # generated epochs: (object, size items the model is given, migration items the model is given, origin)
+    objs = []
+    for k, (d, eps) in enumerate(zip((d1, d2), gen)):
+        for j, e in enumerate(eps):
+            objs.append((e, list(e.pop_sizes.items()), list(e.migration_rates.items()), ('gen', k, j)))
+            if list(e.pop_sizes) != list(d.pop_names) or list(e.migration_rates) != list(itertools.product(d.pop_names, repeat=2)):
+                ctx.corr_break('epochkey', why='a generated epoch does not list its keys in the order pop_names / product(pop_names, 2)',
+                               pop_names=list(d.pop_names), sizes=list(e.pop_sizes), mig=[list(k_) for k_ in e.migration_rates])
+            ctx.count('epochkey:generated-epochs')
+    if mode2 == 'same-shuffled':
+        ctx.count('epochkey:same-content-other-dict-order:epoch-lists-equal' if
+                  [(list(e.pop_sizes.items()), list(e.migration_rates.items())) for e in gen[0]] ==
+                  [(list(e.pop_sizes.items()), list(e.migration_rates.items())) for e in gen[1]]
+                  else 'epochkey:same-content-other-dict-order:epoch-lists-DIFFER')
+    # directly constructed epochs
+    direct = []
+    for _ in range(rng.randint(2, 4)):
+        src = rng.choice(objs)[0]
+        ps = dict(src.pop_sizes)
+        mr = dict(src.migration_rates)
+        kind = rng.choice(['copy', 'shuffle', 'no-self', 'missing', 'shuffle-missing', 'perturb'])
+        if kind in ('shuffle', 'shuffle-missing'):
+            ps, mr = _ek_shuffled(rng, ps), _ek_shuffled(rng, mr)
+        if kind in ('no-self', 'missing', 'shuffle-missing'):
+            mr = {k: v for k, v in mr.items() if k[0] != k[1]}
+        if kind in ('missing', 'shuffle-missing'):
+            mr = {k: v for k, v in mr.items() if not (v == 0 and rng.random() < 0.6)}
+        if kind == 'perturb':
+            # change ONE directed rate or one size (either direction of a pair: `(q, p)` with `p < q` as often as `(p, q)`)
+            offdiag = [k for k in mr if k[0] != k[1]]
+            if offdiag and rng.random() < 0.75:
+                k = rng.choice(offdiag)
+                mr[k] = mr[k] + rng.choice([0.5, 1.0, 2.0 ** -30])
+            else:
+                p = rng.choice(list(ps))
+                ps[p] = ps[p] + rng.choice([1, 0.5, 2.0 ** -30])
+        e = Epoch(start_time=rng.choice([0, 1.5]), end_time=rng.choice([2.0, np.inf]), pop_sizes=ps, migration_rates=mr)
+        direct.append((e, list(ps.items()), list(mr.items()), ('direct', kind)))
+        ctx.count(f'epochkey:direct:{kind}')
+    pairs = []
+    for k in (0, 1):
+        n = len(gen[k])
+        base = sum(len(g) for g in gen[:k])
+        pairs += [(objs[base + i], objs[base + i + 1]) for i in range(n - 1)]                                   # consecutive
+        pairs += [(objs[base + i], objs[base + j]) for i in range(n) for j in range(n) if abs(i - j) >= 2]       # non-consecutive
+    n0 = len(gen[0])
+    cross = [(a, b) for a in objs[:n0] for b in objs[n0:]]
+    rng.shuffle(cross)
+    pairs += cross[:10]
+    pairs += [(rng.choice(objs), x) for x in direct] + [(x, rng.choice(objs)) for x in direct]
+    pairs += [(x, y) for x in direct for y in direct]
+    rng.shuffle(pairs)
+    pairs = pairs[:n_pairs]
+    last = None
+    for (e1, s1, m1, o1), (e2, s2, m2, o2) in pairs:
+        allnames = sorted({p for p, _ in s1 + s2} | {x for (a, b), _ in m1 + m2 for x in (a, b)})
+        ids = {p: i for i, p in enumerate(allnames)}
+        line = f"epochkey {variant} {_ek_tokens(s1, m1, ids)} ; {_ek_tokens(s2, m2, ids)}"
+        model = C.driver().ask(line)
+        real_eq, real_hash = bool(e1 == e2), hash(e1) == hash(e2)
+        last = line
+        ctx.count('epochkey:pairs')
+        tag = 'same-run' if o1[0] == o2[0] == 'gen' and o1[1] == o2[1] else 'two-demographies' if o1[0] == o2[0] == 'gen' else 'with-direct'
+        ctx.count(f"epochkey:{tag}:{'eq' if real_eq else 'ne'}")
+        if tag == 'same-run' and abs(o1[2] - o2[2]) >= 2 and real_eq:
+            ctx.count('epochkey:same-run:non-consecutive-hit')
+        if model not in ('eq', 'ne') or (model == 'eq') != real_eq or real_hash != real_eq:
+            ctx.corr_break('epochkey', variant=variant, request=line, model=model, real_eq=real_eq, real_hash_eq=real_hash,
+                           origin=[list(o1), list(o2)])
+        # the property itself, on the real objects: equal epochs carry the same sizes and the same rates
+        same_sizes = dict(e1.pop_sizes) == dict(e2.pop_sizes)
+        off1 = {k: v for k, v in e1.migration_rates.items() if k[0] != k[1]}
+        off2 = {k: v for k, v in e2.migration_rates.items() if k[0] != k[1]}
+        if real_eq and not (same_sizes and off1 == off2):
+            diff = sorted(str(k) for k in set(off1) | set(off2) if off1.get(k) != off2.get(k))
+            ctx.violation('epoch-eq:unsound', pop_sizes=[dict(e1.pop_sizes), dict(e2.pop_sizes)],
+                          migration_rates=[{str(k): v for k, v in e1.migration_rates.items()},
+                                           {str(k): v for k, v in e2.migration_rates.items()}],
+                          differing_rates=diff, origin=[list(o1), list(o2)])
+        # within generator runs over the same names, equal content must be a hit (theorem `generated_eq_iff`)
+        if o1[0] == o2[0] == 'gen' and list(e1.pop_sizes) == list(e2.pop_sizes) and not real_eq and \
+                dict(e1.pop_sizes) == dict(e2.pop_sizes) and dict(e1.migration_rates) == dict(e2.migration_rates):
+            ctx.corr_break('epochkey', why='generated epochs over the same names with equal content compare unequal', request=line,
+                           origin=[list(o1), list(o2)])
+    return last
+
+
+
 # ------------------------------------------------------------------------------------------ pmap entry points
 def one_memo(ctx, i):
     rng = random.Random(f'{ctx.seed}-corr-memo-{i}')
@@ -1797,3 +1968,11 @@ def one_demoobj(ctx, i):
     for _ in range(20):
         line = demoobj_history(ctx, rng, n_ops=rng.randint(3, 10), variant=os.environ.get('VERIF_DEMOOBJ_VARIANT', 'current'))
     ctx.case(dict(kind='demoobj-history', batch=i, last=line), f'demoobj-{i}')
+
+
+def one_epochkey(ctx, i):
+    rng = random.Random(f'{ctx.seed}-corr-epochkey-{i}')
+    line = None
+    for _ in range(4):
+        line = epochkey_pairs(ctx, rng, variant=os.environ.get('VERIF_EPOCHKEY_VARIANT', 'current'), n_pairs=30) or line
+    ctx.case(dict(kind='epochkey-pairs', batch=i, last=line), f'epochkey-{i}')
